@@ -21,7 +21,8 @@ FIXED=[
  ("C01","union.Parse picks the member template","nodes.go union.Parse","Union[U](A{}, &B{}) with only *B implementing U: a match of B panicked in reflect.Value.Convert (member template looked up by value index; witness grammar W3)"),
  ("C06","union.Parse picks the member template","nodes.go union.Parse","parse panicked (reflect.Value.Convert) for a union whose first member is declared by value and whose matching member needs a pointer receiver"),
  ("C14","ebnf.Term.String drops the negation","ebnf/ebnf.go Term.String","printing a parsed EBNF tree omitted '~': `A = ~\"x\" \"y\" .` printed as `A = \"x\" \"y\" .`"),
- ("C14","modifier applied to a modified group","ebnf.go buildEBNF","Parser.String() printed `( \"a\"+ )?` as `\"a\"+?`, which the ebnf package cannot parse"),
+ ("C14","modifier applied to a modified group","ebnf.go buildEBNF","Parser.String() printed `( \"a\"+ )?` as `\"a\"+?` (and `( ~( x+ ) )?` as `~(x)+?`), which the ebnf package cannot parse"),
+ ("C14","negated negation as ~~x","ebnf.go buildEBNF","Parser.String() printed `~( ~Int )` as `~~<int>`, which the ebnf package cannot parse (found by the C14 seed sweep after the first printer repairs)"),
  ("C08","left recursion goes undetected","validate.go isLeftRecursive","left recursion undetected when the recursive reference follows a multi-term earlier alternative, a nullable or lookahead prefix, or goes through another production/union in those positions, e.g. `A = \"t\" \"u\" | A \"e\"`"),
  ("C18","Unquote mangles","map.go unquote","Unquote turned \"\\xff\" into U+00FF and interpreted escapes inside back-quoted strings"),
  ("C19","EBNF printing panics on anonymous struct","ebnf.go buildEBNF","Build panicked (slice bounds out of range [:1]) rendering the left-recursion error for a cycle through an anonymous struct field"),
